@@ -42,9 +42,9 @@ def reload_check(doc):
     return None
 
 
-def apply_set(doc, ptext, value, mustexist=True):
+def apply_set(doc, ptext, value, mustexist=True, proc=None):
     """-> ('ok', None) | ('ype', name) | ('crash', where)"""
-    proc = Processor(corpus.LOG, doc)
+    proc = proc or Processor(corpus.LOG, doc)
     try:
         proc.set_value(ptext, value, mustexist=mustexist)
         return "ok", None
@@ -54,8 +54,8 @@ def apply_set(doc, ptext, value, mustexist=True):
         return "crash", "%s@%s" % (type(ex).__name__, qrun.where(ex))
 
 
-def apply_delete(doc, ptext):
-    proc = Processor(corpus.LOG, doc)
+def apply_delete(doc, ptext, proc=None):
+    proc = proc or Processor(corpus.LOG, doc)
     try:
         for _ in proc.delete_nodes(ptext):
             pass
